@@ -176,6 +176,16 @@ impl Documents {
                 err: err.to_string(),
             })?;
 
+        // `write_all` on a tokio file only hands the data to a background write: without a
+        // flush the file may still be empty or partly written when this function returns and
+        // the compilation triggered right afterwards reads it.
+        file.flush()
+            .await
+            .map_err(|err| DocumentError::UnableToWriteFile {
+                path: uri.path().to_string(),
+                err: err.to_string(),
+            })?;
+
         Ok(())
     }
 
